@@ -200,10 +200,38 @@ def eval_atom(closed):
     return atom
 
 
+def find_eval(facts):
+    """the relation table: the self-recursive function under CobComp::part_eval with parameters (c, g, x, y, h, t) - a
+    nested fn, a private method, whatever it is called"""
+    global EVAL
+    root = facts.bodies.get('yui_kh::kh::internal::v2::cob::CobComp::part_eval')
+    if root is None:
+        return None
+    seen, todo = set(), [root]
+    for _ in range(3):
+        nxt = []
+        for b in todo:
+            for c in b.calls():
+                t = facts.bodies.get(c.callee or '')
+                if t is None or t.defp in seen or '::cob::' not in t.defp:
+                    continue
+                seen.add(t.defp)
+                if any((c2.callee or '') == t.defp for c2 in t.calls()):
+                    names = [t.local_name(k) for k in range(1, t.arg_count + 1)]
+                    if t.arg_count == 6 and names[1:] == ['g', 'x', 'y', 'h', 't']:
+                        EVAL = t.defp
+                        import symex
+                        symex.NO_INLINE.add(EVAL)
+                        return t
+                nxt.append(t)
+        todo = nxt
+    return None
+
+
 def check_part_eval(facts, rep):
     dt = DTree(facts)
-    if EVAL not in facts.bodies:
-        rep.indet('E9: %s not found' % EVAL)
+    if find_eval(facts) is None or EVAL not in facts.bodies:
+        rep.indet('E9: the relation table (a self-recursive function (c, g, x, y, h, t) under CobComp::part_eval) not found')
         return
     rep.saw(facts.bodies[EVAL])
     npts = 0
@@ -410,17 +438,19 @@ def extract_deloop(facts, rep):
     for p in SymEx(w, havoc_loops=True).run():
         for e in p.calls():
             if e.name.endswith('TngComplex::<R>::modify_edge') and len(e.args) == 4 and e.args[3][0] == 'closure':
-                cl = e.args[3][1]
                 direction = 'in' if strip(e.args[2]) == ('arg', 2) else ('out' if strip(e.args[1]) == ('arg', 2) else '?')
-                cb = facts.bodies.get(cl)
                 use = None
-                if cb is not None:
-                    for q in SymEx(cb).run():
-                        for c in q.calls():
-                            if c.name.endswith('::cap_off') and len(c.args) == 4:
-                                bot = c.args[1][2] if c.args[1][0] == 'adt' else '?'
-                                dot = sk(c.args[3])
-                                use = (bot, 'death' if 'death_dot' in dot else ('birth' if 'birth_dot' in dot else '?'))
+                # the edge modifier applied to a symbolic cobordism, captured values substituted (so it does not matter
+                # whether the closure sits in deloop_with or in a helper that receives the side and the dot as parameters)
+                from symex import apply_closure
+                for q in apply_closure(e.args[3], [('f',)]) or []:
+                    for c in q.calls():
+                        if c.name.endswith('::cap_off') and len(c.args) == 4:
+                            b_ = strip(c.args[1])
+                            bot = b_[2] if b_[0] == 'adt' else '?'
+                            d_ = strip(c.args[3])
+                            dn = (w.local_name(d_[1]) or '') if d_[0] == 'arg' else sk(d_)
+                            use = (bot, 'death' if 'death_dot' in dn else ('birth' if 'birth_dot' in dn else '?'))
                 sides[direction] = use
     out['sides'] = sides
     # are birth_dot / death_dot the 4th / 5th parameters?
@@ -486,6 +516,8 @@ def check_deloop(facts, rep):
     inst = 'TngComplex::deloop_with|incoming capped with death, outgoing cupped with birth'
     if D['sides'] == {'in': ('Tgt', 'death'), 'out': ('Src', 'birth')} and D['params'][3:5] == ['birth_dot', 'death_dot']:
         rep.ok('E9.R6-deloop-dual-basis', inst, str(D['sides']))
+    elif set(D['sides']) != {'in', 'out'} or any(v is None or '?' in v for v in D['sides'].values()) or D['params'][3:5] != ['birth_dot', 'death_dot']:
+        rep.indet('E9.R6: deloop_with outside the recognised fragment: applies %s (parameters %s)' % (D['sides'], D['params']))
     else:
         rep.violation('E9.R6-deloop-dual-basis', inst, 'deloop_with applies %s (parameters %s); expected in:(Tgt,death), out:(Src,birth) with (.., birth_dot, death_dot)' % (D['sides'], D['params']), where=wh)
     # elements use the same death dots under the same labels
